@@ -43,12 +43,17 @@ func init() {
 			"100-400 messages) goes through 6-12 rounds of: reopen (new store object; every fourth case a fresh process per round), then as the " +
 			"FIRST accesses 4-16 concurrent readers released together (GetMessages, GetMessage by id / latest / missing id, VisitMailboxes; most " +
 			"start on the same mailbox), each of which must see exactly the model; a sequential read of the same object; 1-3 writes; reopen and " +
-			"sequential read.  GOMAXPROCS >= 4; verdicts from results only.",
+			"sequential read.  GOMAXPROCS >= 4; verdicts from results only.  Store path: every 4th inproc, 3rd restart and 3rd burst case " +
+			"configures a hostile-but-legal path (directory name with glob classes / wildcards / unclosed brackets / backslashes / braces / " +
+			"regexp / shell / space / percent / unicode / control / dot / colon / long / invalid-UTF-8 names, possibly as a non-final component; " +
+			"spelled with a trailing slash, doubled slash, ./ or x/../ component, or relative to the working directory); same oracle, " +
+			"findings under back-end *-oddpath.",
 		Assumptions: []string{
 			"a restart is a process that exits normally after its last store call returned and a new process that constructs file.New on the same path (crashes are C11)",
 			"message dates are either 1971-2015 or 2100-2200 and the retention period is 1h..1y, so the cut-off computed from the machine clock (assumed to lie in 2021..2098) is never within years of a message date",
 			"ids of messages deleted before a restart may be handed out again by the next process (the store cannot know them); within one process ids are never reused; an id of a LIVE message must never be handed out again",
 			"whether two epochs share a wall-clock second is read off the ids the store returned and only counted",
+			"any directory name the OS accepts is a legal storage path; '$' is left out because the store documents it as a stand-in for ':'; the working directory does not change between processes of one history (relative paths)",
 		},
 		MinObs: func(tier string) map[string]int64 {
 			k := int64(1)
@@ -87,6 +92,17 @@ func init() {
 				"burst/reader_messages_compared":                       20000 * k,
 				"burst/writes_after_first_reads":                       100 * k,
 				"burst/reopens_after_write":                            100 * k,
+				// hostile-but-legal store paths (paths.go, after seeded change C10-13)
+				"inproc/path_cases":                       150 * k,
+				"inproc/path_glob_or_backslash":           60 * k,
+				"inproc/path:glob-class":                  8 * k,
+				"inproc/oddpath_reopens_nonempty":         300 * k,
+				"inproc/oddpath_messages_across_reopen":   2000 * k,
+				"restart/path_cases":                      30 * k,
+				"restart/path_glob_or_backslash":          8 * k,
+				"restart/oddpath_restarts_nonempty":       60 * k,
+				"restart/oddpath_messages_across_restart": 300 * k,
+				"burst/oddpath_rounds":                    20 * k,
 			}
 		},
 		ChildTimeout: func(tier string) time.Duration {
@@ -201,7 +217,10 @@ func runInproc(c *fw.Ctx, idx int, r *fw.Rand) {
 
 	dir := c.TempDir("c10fs")
 	defer os.RemoveAll(dir)
-	sc := storageCfg(dir, cap, period)
+	// added after seeded change C10-13: every fourth history runs on a store directory with a
+	// hostile-but-legal name / spelling (paths.go); findings of those get the back-end "file-oddpath"
+	storePath, pathLabel, oddPath := pickStorePath(c, "inproc", idx, 4, dir, dir)
+	sc := storageCfg(storePath, cap, period)
 	// A third of the histories are restarted with a DIFFERENT message cap each time (an
 	// administrator lowering or raising INBUCKET_STORAGE_MAILBOXMSGCAP between runs): what is
 	// on disk must still be shown in full, and the next delivery to a mailbox brings it within
@@ -229,7 +248,12 @@ func runInproc(c *fw.Ctx, idx int, r *fw.Rand) {
 		panic(err)
 	}
 	desc := fmt.Sprintf("inproc/cap=%d/period=%v/changecap=%v", cap, period, changeCap)
-	e = c07.NewExec("C10", "file", desc, st, cap, 0, boxes)
+	backend := "file"
+	if oddPath {
+		backend = "file-oddpath"
+		desc += fmt.Sprintf("/path(%s)=%q", pathLabel, storePath)
+	}
+	e = c07.NewExec("C10", backend, desc, st, cap, 0, boxes)
 	e.Open = open
 	e.QuietReopen = true
 	e.ScanCfg = sc
@@ -244,6 +268,13 @@ func runInproc(c *fw.Ctx, idx int, r *fw.Rand) {
 		e.Apply(&c07.Op{Kind: c07.OpReopen})
 	}
 	c07.Report(c, e, "inproc/")
+	if oddPath {
+		c.Count("inproc/oddpath_reopens_nonempty", e.Counts["reopens_nonempty"])
+		c.Count("inproc/oddpath_messages_across_reopen", e.Counts["messages_across_reopen"])
+		if e.Counts["reopens_nonempty"] > 0 {
+			c.NonTrivial(fmt.Sprintf("inproc-oddpath|%s|short=%v", pathLabel, short))
+		}
+	}
 	if e.Counts["reopens_nonempty"] > 0 {
 		kind := "long"
 		if short {
@@ -251,5 +282,5 @@ func runInproc(c *fw.Ctx, idx int, r *fw.Rand) {
 		}
 		c.NonTrivial(fmt.Sprintf("inproc-%s|cap=%d|boxes=%d|%s", kind, cap, len(boxes), sigFeats(e)))
 	}
-	c.Sample(map[string]any{"mode": desc, "short": short, "ops": len(ops), "counts": e.Counts})
+	c.Sample(map[string]any{"mode": desc, "path": pathLabel, "short": short, "ops": len(ops), "counts": e.Counts})
 }
